@@ -189,11 +189,27 @@ def main():
         inconc.append('exploration cut by the wall budget before the stated bound was covered (%d exploration(s))' % ex.GLOBAL_STATS['truncated'])
     for f in nonrepro:
         inconc.append('solver model did not reproduce natively: %s [%s] %s' % (f['desc'], f['key'], f.get('witness_text', '')))
+    undecided = []
+    if tier == 'thorough':
+        # the thorough tier goes to bounds where single solver queries run out of their time cap: such paths are
+        # reported as undecided (evidence: coverage.undecided_paths, exhaustive = false), the verdict covers what was
+        # explored.  Unsupported constructs, encoder mismatches, missing covers and non-reproducing models still end
+        # the run INCONCLUSIVE.
+        def soft(r):
+            # (a cover point missing from an exploration that was cut by its budget is a consequence of the cut)
+            return r.startswith('inconclusive: solver returned unknown') or (r.startswith('vacuity') and ex.GLOBAL_STATS['truncated'] > 0)
+        undecided = [r for r in inconc if soft(r)]
+        inconc = [r for r in inconc if not soft(r)]
+        for r in undecided[:5]:
+            print('UNDECIDED property=%s %s' % (pid, r[:200]))
     if rc == 0 and inconc:
         rc = 2
     for r in inconc[:20]:
         print('INCONCLUSIVE property=%s reason=%s' % (pid, r))
     ev = res['evidence']
+    if undecided:
+        ev.setdefault('coverage', {})['undecided_paths'] = undecided[:20]
+        ev['coverage']['exhaustive'] = False
     ev.setdefault('coverage', {})['second_solver'] = {
         'cvc5_queries_agreeing': ex.GLOBAL_STATS['cvc5_agreed'], 'cvc5_queries_not_comparable': ex.GLOBAL_STATS['cvc5_skipped'],
         'sampling_rate': float(os.environ.get('VERIF_DIFF_RATE', '0') or 0),
